@@ -424,8 +424,8 @@ impl Check for BankCheck {
 
     fn budget(_id: &str, tier: Tier) -> Budget {
         match tier {
-            Tier::Quick => Budget { cases: 20_000, max_bytes: 1500 },
-            Tier::Thorough => Budget { cases: 300_000, max_bytes: 2500 },
+            Tier::Quick => Budget { cases: 40_000, max_bytes: 1500 },
+            Tier::Thorough => Budget { cases: 600_000, max_bytes: 2500 },
         }
     }
 
